@@ -14,3 +14,9 @@ Proof.
   destruct (Z.eqb_spec (len (run es)) ol) as [Hl|Hl];
   destruct (Z.eqb_spec (present (run es)) ok) as [Hp|Hp]; simpl; split; intro H; try discriminate; auto.
 Qed.
+
+(* the premises are satisfiable by non-trivial runs: a quiescent state holding keys, reached through both windows *)
+Example quiescent_somewhere :
+  let es := (SPublish :: SPublish :: SCount :: SRemove :: SPublish :: SDiscount :: SCount :: SCount :: nil) in
+  quiescent (run es) /\ present (run es) = 2 /\ len (run es) = 2.
+Proof. vm_compute. repeat split; reflexivity. Qed.
